@@ -536,7 +536,7 @@ GLOBAL_RULES = [
 def build_item(repo, item, log):
     kind = item.get("kind", "fn")
     src = ""
-    if kind != "stub":
+    if kind not in ("stub", "text_check"):
         path = os.path.join(repo, item["file"])
         try:
             src = open(path).read()
@@ -622,6 +622,23 @@ def build_item(repo, item, log):
         nm = re.search(r"fn\s+(\w+)", item["sig"]).group(1)
         return dict(name=nm, text=text, where="assumed contract; " + item.get("proved_in", "unproved"), raw_lines=0, body=None, head=None,
                     attrs="", is_type=True, is_stub=True)
+    elif kind == "text_check":
+        # a fact about the source text decided syntactically on every run and turned into a spec constant; the unit states
+        # it as a labelled obligation.  captures: {name: (file, regex with one group)}; expr: python expression over them
+        caps = {}
+        for cname, (cfile, cpat) in item["captures"].items():
+            try:
+                csrc = open(os.path.join(repo, cfile)).read()
+            except OSError as e:
+                raise ExtractError("lost anchor: cannot read %s: %s" % (cfile, e))
+            ms = re.findall(cpat, csrc)
+            if len(ms) != 1:
+                raise ExtractError("lost anchor: text_check capture /%s/ matched %d times in %s" % (cpat, len(ms), cfile))
+            caps[cname] = ms[0]
+        val = bool(eval(item["expr"], {"__builtins__": {}}, dict(caps)))
+        text = "// ---- text check %s: %s  with %r\npub spec const %s: bool = %s;\n" % (item["const"], item["expr"], caps, item["const"], "true" if val else "false")
+        log.add("R15", "text check %s" % item["const"], str(caps), str(val))
+        return dict(name=item["const"], text=text, where="text check", raw_lines=len(caps), body=None, head=None, attrs="", is_type=True)
     elif kind == "lines":
         out = []
         for pat in item["patterns"]:
